@@ -1,6 +1,6 @@
 """C08 — consistent renaming of user identifiers commutes with transpilation (spec/PyScope.tla).
 
-TLC computes, on a scope tree with 19 binders and 20 references, every identifier assignment that merges a pair
+TLC computes, on a scope tree with 25 binders and 27 references, every identifier assignment that merges a pair
 of binders without changing what any reference denotes under Python's LEGB rule (the shadowing patterns),
 proves that resolution depends on slot equality only (BindsBySlotOnly), and renders the program under seven
 namings (adversarial pools: prefixes of one another, double underscores, node-classification words, very
@@ -91,6 +91,13 @@ def run(ctx: Ctx) -> int:
 	if res.rc != 0:
 		raise Machinery(f'PyScope: a model-level fact fails (PoolsInjective / Valid(Injective) / BindsBySlotOnly): {res.out[-800:]}')
 	cases = [json.loads(line) for line in res.lines('CASE ')]
+	tokens = json.loads(res.lines('TOKENS ')[0])
+	for c in cases:
+		c['text'] = ''.join(t['s'] if t['k'] == 't' else c['names'][t['s']] for t in tokens)
+	for full in (json.loads(line) for line in res.lines('FULL ')):
+		mine = next(c for c in cases if c['pool'] == full['pool'] and not c['merged'])
+		if mine['text'] != full['text']:
+			raise Machinery(f'the harness substitution and PyScope.Text disagree for pool {full["pool"]}')
 	info = res.lines('ASSIGNMENTS ')
 	by_pattern: dict[str, list] = {}
 	for c in cases:
